@@ -3,7 +3,10 @@
 
 #include <smooth/diff.hpp>
 #include <smooth/optim.hpp>
+#include <smooth/manifolds/any.hpp>
+#include <smooth/spline/dubins.hpp>
 #include <smooth/spline/fit.hpp>
+#include <smooth/spline/reparameterize.hpp>
 
 #include "sched.hpp"
 
@@ -80,4 +83,62 @@ void sol_op(const void * p, int t, std::vector<double> & out)
   }
 }
 c18::BodyReg reg_sol({"independent_solvers", 2, sol_make, sol_op});
+
+// ------------------------------------------------------------------ curve construction from shared const inputs
+struct CurveShared
+{
+  std::vector<double> ts;
+  std::vector<SE2d> hs;
+  std::vector<Eigen::Vector2d> vs;
+  Spline<3, Eigen::Vector2d> path;
+  SE2d target;
+  std::unique_ptr<AnyManifold> any;
+};
+void * curve_make()
+{
+  auto * s = new CurveShared;
+  s->ts    = {0, 0.5, 1.5, 2, 3.5};
+  for (double t : s->ts) {
+    s->hs.push_back(SE2d::exp(Eigen::Vector3d(t, -0.5 * t, 0.2 * t)));
+    s->vs.push_back(Eigen::Vector2d(std::sin(t), 0.3 * t * t));
+  }
+  s->path   = fit_spline_cubic(s->ts, s->vs);
+  s->target = SE2d(SO2d(1.1), Eigen::Vector2d(3, -2));
+  s->any    = std::make_unique<AnyManifold>(SE2d::exp(Eigen::Vector3d(0.3, 0.2, -0.4)));
+  return s;
+}
+void curve_op(const void * p, int t, std::vector<double> & out)
+{
+  const auto * s = static_cast<const CurveShared *>(p);
+  {
+    const auto d = dubins_curve<3>(s->target, 0.8 + 0.2 * t);
+    Eigen::Vector3d vel;
+    put(out, d(0.4 * d.t_max(), vel).coeffs());
+    put(out, vel);
+    out.push_back(d.t_max());
+  }
+  {
+    const auto c = fit_spline(s->ts, s->hs, spline_specs::FixedDerCubic<SE2d, 2>{});
+    put(out, c(1.1 + 0.3 * t).coeffs());
+    const auto l = fit_spline(s->ts, s->vs, spline_specs::PiecewiseLinear<Eigen::Vector2d>{});
+    put(out, l(0.7 + t));
+  }
+  {
+    const Eigen::Vector2d vmax(1, 1), amax(0.5 + 0.1 * t, 1);
+    const auto r = reparameterize_spline(s->path, -vmax, vmax, -amax, amax, 0., 0.);
+    Eigen::Matrix<double, 1, 1> ds;
+    out.push_back(r(0.3 * r.t_max(), ds));
+    out.push_back(ds(0));
+    out.push_back(r.t_max());
+  }
+  {
+    AnyManifold a = *s->any;  // copy of a shared type-erased object
+    Eigen::VectorXd d(3);
+    d << 0.1 * (t + 1), -0.2, 0.05;
+    const AnyManifold b = rplus(a, d);
+    put(out, b.get<SE2d>().coeffs());
+    put(out, rminus(b, *s->any));
+  }
+}
+c18::BodyReg reg_curve({"curve_construction", 2, curve_make, curve_op});
 }  // namespace
